@@ -634,10 +634,13 @@ def execute(run):
 def describe(tier, agg):
     return {
         'rule': 'case = one history of 8-16 operations (+ finishing stages) over 1-2 caller '
-                'frames in clean-up-triggering flavours (wrong dtypes, extra columns, shuffled '
-                'columns, non-default index, attrs) and up to 3 nested per-call dicts (partial, '
+                'frames in clean-up-triggering flavours (wrong dtypes incl. categorical, extra '
+                'columns, shuffled columns, non-default index, attrs, slice of a larger frame, '
+                'output / subset / copy of the package\'s own checker) and up to 3 nested per-call '
+                'dicts (partial, list leaves in any order, '
                 'unknown keys, one that makes the run refuse half-way): construct, next stage of '
-                'a chunk, run, in-place edits of the global / of a snapshot (incl. list '
+                'a chunk, run, in-place edits of the global (single leaf or every leaf) / of a '
+                'snapshot (incl. list '
                 'mutation) / of a dict passed earlier, set_prms(YAML), reset_prms; one third of '
                 'the runs is the fault-injecting configuration (exception raised from the trace '
                 'function at a seeded line event of construction, run or stage). Non-trivial = '
